@@ -227,7 +227,7 @@ def s5(ctx, rep, clause="S5"):
         # from the start of the branch that contains the notification (either order inside the branch is fine)
         from ..engine import dominating_edges
         starts = [s for s, l in cfg.succ[n2]]
-        doms = [(t, c_, tr) for (t, c_, tr) in dominating_edges(cfg, n2) if "Status." in U(c_) or has_dn(U(c_))]
+        doms = list(dominating_edges(cfg, n2))      # the innermost branch that contains the notification
         if doms:
             t_last = doms[-1][0]
             starts = [s for s, l in cfg.succ[t_last] if isinstance(l, tuple) and l[2] is doms[-1][2] and
